@@ -66,6 +66,7 @@ fn main() {
         "ext-prov" => p3r_verif_harness::extprov::cmd(&args[2..]),
         "npo-start-sum" => p3r_verif_harness::merklepath::cmd_start_sum(&args[2..]),
         "alpha-chain" => p3r_verif_harness::alusched::cmd_alpha(&args[2..]),
+        "one-op-lanes" => p3r_verif_harness::alusched::cmd_one_op(&args[2..]),
         "digest-npo" => p3r_verif_harness::npodigest::cmd(&args[2..]),
         "digest-stark" => p3r_verif_harness::stark::cmd_digest(&args[2..]),
         "stark-expand" => p3r_verif_harness::stark::cmd_expand(&args[2..]),
